@@ -399,6 +399,7 @@ type Monitor struct {
 	CfgApplied                  int
 	SnapshotDrift               int // votes cast by a validator whose current power differs from the snapshot
 	StrangerPublicOK            int // successful PROPOSAL_FINALIZE / EXPIRE_VOTES transactions
+	EmptySnapshots              int
 	Notes                       []string
 }
 
@@ -575,9 +576,10 @@ func (m *Monitor) Block(h int64, raw [][]byte, res []sim.TxRes, afterDump map[st
 				return viol("withdraw", "not-refundable", "h=%d tx#%d: funder %s withdrew %s from proposal %s although it is neither cancelled nor past its funding deadline (%d) below its goal (stage %s, funds %s of %s): the funds of such a proposal are to be distributed at finalisation",
 					h, i, f, v, t.ID, fdl, st, p.total(), goal)
 			}
-			if v.Sign() < 0 {
-				return viol("withdraw", "negative-amount", "h=%d tx#%d: PROPOSAL_WITHDRAW_FUNDS with value %s succeeded: the escrow record of funder %s grows and beneficiary %s is debited although it did not sign (signers %v)",
-					h, i, v, f, t.Withdraw.Beneficiary, t.Signers)
+			if v.Sign() < 0 && !t.Withdraw.Beneficiary.Equal(t.Withdraw.Funder) {
+				b := t.Withdraw.Beneficiary.String()
+				return viol("withdraw", "negative-amount", "h=%d tx#%d: PROPOSAL_WITHDRAW_FUNDS of funder %s with value %s and beneficiary %s succeeded: the funder's escrow record grows by %s (withdrawable later) and the beneficiary, which did not sign (signers %v), is debited; beneficiary balance before the block %s, after %s",
+					h, i, f, v, b, new(big.Int).Neg(v), t.Signers, balOf(before.raw, b), balOf(afterDump, b))
 			}
 			add(p.Withdrawn, f, v)
 			fundsOut.Add(fundsOut, v)
@@ -639,9 +641,12 @@ func (m *Monitor) Block(h int64, raw [][]byte, res []sim.TxRes, afterDump map[st
 				if rec.FundingGoal == nil || p.total().Cmp(rec.FundingGoal.BigInt()) < 0 {
 					return viol("voting-start", "goal-not-met", "h=%d: proposal %s entered voting (now %s) with contributions %s below its goal %v", h, id, st, p.total(), rec.FundingGoal)
 				}
+				// (an empty snapshot is possible: the application marks validators active at the end of block 2,
+				// so a proposal that reaches its goal in block 1 or 2 records no voters; the property does not
+				// fix the snapshot's content, only that decisions follow it)
 				snap := after.votes[id]
 				if len(snap) == 0 {
-					return viol("voting-start", "no-snapshot", "h=%d: proposal %s entered voting without any validator vote record", h, id)
+					m.EmptySnapshots++
 				}
 				p.VoteStart = h
 				p.Snapshot = map[string]int64{}
@@ -734,7 +739,7 @@ func (m *Monitor) Block(h int64, raw [][]byte, res []sim.TxRes, afterDump map[st
 		}
 	}
 	for _, id := range m.Order {
-		if p := m.Props[id]; p.Snapshot != nil && len(after.votes[id]) == 0 {
+		if p := m.Props[id]; len(p.Snapshot) > 0 && len(after.votes[id]) == 0 {
 			return viol("votes", "snapshot-vanished", "h=%d: the vote records of proposal %s disappeared", h, id)
 		}
 	}
